@@ -26,7 +26,8 @@ enum VsReason {
   VS_R_LOCK = 12,         // about to take a pthread mutex
   VS_R_LOCK_BLOCKED = 13, // mutex / once owned by another simulated thread
   VS_R_UNLOCK = 14,
-  VS_R_CV = 15            // condition variable: waiting (blocked) / after a notify (tag = first-seen ordinal)
+  VS_R_CV = 15,           // condition variable: waiting (blocked) / after a notify (tag = first-seen ordinal)
+  VS_R_SPIN = 16          // forced yield: too many function entries since the last scheduling point (spin wait); tag = consecutive count
 };
 
 enum VsPolicy { VS_P_UNIFORM = 0, VS_P_PCT = 1, VS_P_STICKY = 2 };
@@ -63,6 +64,13 @@ void vs_cv_stats(long* waits, long* notifies, long* empty_notifies, long* timeou
 // fault: up to k waits of the run return without a notification (spurious wake-up, legal for every condition variable);
 // which ones is a scheduling decision (a waiter is a candidate of the scheduler while the budget lasts) and replays with it
 void vs_set_cv_spurious(int k);
+// spin waits (instrumented flavours): a thread that executes more than `limit` function entries without reaching a
+// scheduling point is parked there (a deterministic position) and stalled for two decisions; more than `budget`
+// such yields in a row without any other scheduling point end the run with rc 4 (livelock).  limit 0 = off.
+void vs_set_spin(long limit, int budget);
+long vs_spin_yields(void);
+unsigned long long vs_max_entry_gap(void);
+int vs_max_entry_gap_where(int* prev_reason, unsigned* tag);   // reason codes of the scheduling points that end / begin the longest gap
 long vs_cv_spurious_fired(void);
 long vs_steps(void);
 uint64_t vs_event_hash(void);
